@@ -1,5 +1,6 @@
 import BqVerif.Proofs.Partition
 import BqVerif.Proofs.QuickSpec
+import BqVerif.Proofs.PartitionBins
 /-!
 # C08 — partitioning regroups operations without changing the program
 
@@ -115,8 +116,10 @@ clause (2) every block spans at most `max k (widest member)` qudits.
 (i) packaging the groups as `CircuitGate`s placed on a `Circ` by `append_circuit` (clause (5)
 `invB` and the block table) — the real output goes through `validPartition` instead;
 (ii) that QuickPartitioner's own emission guard (`dividing_line[q] == start` for all qudits
-of the bin) implies `closedIn` — each recorded move is checked by the driver.
-Deadlock freedom (`C08_quick_progress`) is not claimed: see finding F4. -/
+of the bin) implies `closedIn` — now PROVED for the bookkeeping model BinSpec
+(`C08_quick_guard_closed` below); what remains checked per run is that the recorded bin
+events are legal BinSpec moves and that the real `Bin.starts/ends` equal the model's.
+Progress: `C08_quick_progress_partial`. -/
 theorem C08_quick_safety_partial (bg : List Nat) (k : Nat) (l : List Op) (ms : List QMove)
     (s : QState) (hrun : qrun bg k (QState.init l) ms 0 = .ok s) (hterm : s.rem = []) :
     (∀ q, proj q (outOps s) = proj q l) ∧ (outOps s).Perm l ∧
@@ -142,6 +145,61 @@ theorem C08_quick_den (b : Blocks) (bg : List Nat) (k : Nat) (l : List Op) (ms :
     den S (outOps s) = den S l := by
   obtain ⟨htl, hperm, _⟩ := C08_quick_safety_partial bg k l ms s hrun hterm
   exact trace_equiv S _ _ (fun o ho => hl o (hperm.mem_iff.mp ho)) hl htl
+
+/-! ## BinSpec — QuickPartitioner's bookkeeping with the code's own guards
+
+`Model/PartitionBins.lean`: bins own per-qudit cycle intervals `[start, end)`; `add b` /
+`bar b` scan the next operation into a bin (closing the other bins open on its qudits, as
+`close_bin_qudits` does), `finish` closes what is still open, `emit b` places a bin under the
+code's test `dividing_line[q] == start` for all its qudits.  The guards are syntactic — the
+ones the Python evaluates — and the harness checks the real `Bin.starts/ends` against the
+model's at every placement. -/
+
+/-- **The dividing-line guard implies `closedIn`** (this discharges step (ii) of
+`C08_quick_safety_partial`): in every state reachable by BinSpec moves from the initial
+state of a grid-shaped input (cycles non-decreasing in iteration order, operations of one
+cycle disjoint, distinct tags, cycles below `num_cycles`),
+* a bin that passes the code's emission test is a *closed* group of the not yet placed
+  operations — a legal `emit` of QuickSpec as far as order is concerned;
+* placing it removes exactly its operations; every other move leaves the unplaced operations
+  untouched.  So a BinSpec run projects onto a QuickSpec run with the same emissions. -/
+theorem C08_quick_guard_closed (bg : List Nat) (ops : List COp) (ncyc : Nat)
+    (hgrid : gridWFb ops = true) (htags : (ops.map (·.tag)).Nodup)
+    (hcyc : ∀ x ∈ ops, x.cyc < ncyc) (ms : List BMove) (s : BState)
+    (hrun : brun bg (BState.init ops ncyc) ms 0 = .ok s) :
+    (∀ bn, emitGuard s bn = true → closedIn (s.binTags bn) s.remT = true) ∧
+    (∀ m s', bstep bg s m = some s' →
+      match m with
+      | .emit bn => s'.remT = s.remT.filter (fun x => !(s.binTags bn).contains x.tag)
+      | _ => s'.remT = s.remT) := by
+  have hinv : BInv s :=
+    binv_run ms _ s 0 (binv_init ops ncyc (gridWFb_spec ops hgrid) htags hcyc) hrun
+  refine ⟨fun bn hg => emit_closed hinv hg, ?_⟩
+  intro m s' hstep
+  cases m with
+  | add b => exact remT_add hstep
+  | bar b => exact remT_bar hstep
+  | finish => exact remT_finish hstep
+  | emit b => exact remT_emit hinv hstep
+
+/-- **Progress**, as far as it is proved: (1) QuickSpec is never stuck — while operations are
+left, placing the first one alone is legal — so a deadlock can only come from the bins the
+pass formed; (2) the per-run progress check means what it says: when the greedy drain
+`bDrain` (the loop of `process_pending_bins`: place the first pending bin whose starts sit on
+the dividing line, start over) succeeds from a state, there is a sequence of `emit` moves,
+each passing the code's own guard, that places every bin.
+`_partial`: that the `blocked_qudits` bookkeeping of the fixed code (5078a03) keeps the bins
+acyclic, i.e. that the drain succeeds after *every* scan, is not proved; the harness runs the
+drain in Lean at the end of the scan of every real run (and replays the placements the code
+actually made).  Before 5078a03 the statement was false (finding F4). -/
+theorem C08_quick_progress_partial (bg : List Nat) (k : Nat) :
+    (∀ (s : QState) (x : TOp) (t : List TOp), s.rem = x :: t → (s.rem.map (·.tag)).Nodup →
+      ∃ s', qEmit bg k s [x.tag] (!barrierLike bg x.op) = some s' ∧ s'.rem = t) ∧
+    (∀ (fuel : Nat) (s s' : BState), bDrain fuel s = some s' →
+      ∃ ms : List BMove, (∀ m ∈ ms, ∃ b, m = BMove.emit b) ∧
+        brun bg s ms 0 = .ok s' ∧ s'.done = []) :=
+  ⟨fun s x t h1 h2 => qmachine_progress bg k s x t h1 h2,
+   fun fuel s s' h => bDrain_sound bg fuel s s' 0 h⟩
 
 /-! ## non-vacuity -/
 namespace Example
@@ -175,6 +233,15 @@ def pBad : Circ := ⟨[2, 2, 2, 2], [
 merged into the last one (block size 3) -/
 def moves : List QMove := [.emit [0, 2] true, .emit [1, 3] true, .emit [4] false,
   .emit [5] true, .emit [6] true, .lift 4 0, .emit [7, 8] true, .fuse]
+/-- the example circuit with cycles, and the bin events of a block-size-2 run -/
+def cops : List COp := [
+  ⟨0, 0, ⟨1, [], [0], [2]⟩⟩, ⟨1, 0, ⟨2, [], [2, 3], q2⟩⟩,
+  ⟨2, 1, ⟨2, [], [0, 1], q2⟩⟩, ⟨3, 1, ⟨3, [5], [2], [2]⟩⟩,
+  ⟨4, 2, ⟨9, [], [1, 2], q2⟩⟩,
+  ⟨5, 3, ⟨2, [], [1, 2], q2⟩⟩, ⟨6, 3, ⟨1, [], [0], [2]⟩⟩, ⟨7, 3, ⟨3, [7], [3], [2]⟩⟩,
+  ⟨8, 4, ⟨2, [], [2, 3], q2⟩⟩]
+def bmoves : List BMove := [.add 0, .add 1, .add 0, .add 1, .bar 2, .add 3, .add 0, .add 1,
+  .add 4, .finish, .emit 0, .emit 1, .emit 2, .emit 3, .emit 4]
 end Example
 
 example : validPartition Example.blocks [9] true Example.c Example.p 2 = none := by decide +kernel
@@ -196,6 +263,28 @@ example : (match qrun [9] 3 (QState.init Example.c.ops)
       [.emit [0, 2] true, .emit [1, 3] true, .emit [4, 5] true] 0 with
     | .ok _ => false
     | .error i => i == 2) = true := by decide +kernel
+
+example : gridWFb Example.cops = true ∧ (Example.cops.map (·.tag)).Nodup := by decide +kernel
+/-- the bin events are legal BinSpec moves and place everything -/
+example : (match brun [9] (BState.init Example.cops 5) Example.bmoves 0 with
+    | .ok s => s.done.isEmpty && s.todo.isEmpty
+    | .error _ => false) = true := by decide +kernel
+/-- the last CX cannot join bin 1 (its qudit 2 is closed there): `can_accommodate` -/
+example : (match brun [9] (BState.init Example.cops 5)
+      [.add 0, .add 1, .add 0, .add 1, .bar 2, .add 3, .add 0, .add 1, .add 1] 0 with
+    | .ok _ => false
+    | .error i => i == 8) = true := by decide +kernel
+/-- bin 3 (after the barrier) cannot be placed before the barrier bin: dividing line -/
+example : (match brun [9] (BState.init Example.cops 5)
+      [.add 0, .add 1, .add 0, .add 1, .bar 2, .add 3, .add 0, .add 1, .add 4, .finish,
+       .emit 0, .emit 1, .emit 3] 0 with
+    | .ok _ => false
+    | .error i => i == 12) = true := by decide +kernel
+/-- the drain places all five bins after the scan -/
+example : (match brun [9] (BState.init Example.cops 5)
+      [.add 0, .add 1, .add 0, .add 1, .bar 2, .add 3, .add 0, .add 1, .add 4, .finish] 0 with
+    | .ok s => (bDrain 9 s).isSome
+    | .error _ => false) = true := by decide +kernel
 
 /-- the hypothesis of clause (a) is satisfiable for every block table … -/
 def trivialSemantics (b : Blocks) : Semantics (Multiplicative (Multiset Op)) b :=
